@@ -80,6 +80,11 @@ def run(chk):
                 if singular_square:
                     chk.count("SINGULAR-SQUARE-SKIP")   # scipy.linalg.solve refuses an exactly singular system: no reconstruction is returned
                     continue
+                if p == m and type(e).__name__ == "LinAlgError" and np.linalg.cond(B[S]) > 1e12:
+                    # singular to working precision (e.g. a random projection of rank-deficient data: full rank only through rounding
+                    # noise): LAPACK meets an exactly zero pivot and scipy refuses; as above no reconstruction is returned to judge
+                    chk.count("NUMERICALLY-SINGULAR-SQUARE-SKIP")
+                    continue
                 chk.violation("impl", "predict-raises", f"predict raised {type(e).__name__}: {e}", case)
                 continue
             ctx = {**case, "observed": np.asarray(out).tolist()}
